@@ -69,8 +69,8 @@ Proof. vm_compute. reflexivity. Qed.
    library (statement trees of ANY nesting: if/elif/else, for [key,] value with else over arrays,
    strings and maps, break/continue under any ifs in nested loops, set/set_global, set blocks and
    filter sections with filters, includes -- in captures, in loops), every context and global
-   context, every world whose kwargs keys are strings and whose filters do not inspect the VM
-   state, and every non-failing appending writer: rendering the compiled library on the VM gives
+   context, every world whose kwargs keys are strings and whose filters and functions do not
+   inspect the VM state, and every non-failing appending writer: rendering the compiled library on the VM gives
    exactly the text of the reference interpreter, or both fail; any fuel >= n is enough.
    This contains for_loop_refinement, break_continue_innermost, if_first_truthy_branch (with
    C03_if_first_truthy_branch below) and capture exactness of DESIGN §6.
@@ -81,8 +81,10 @@ Proof. vm_compute. reflexivity. Qed.
    and slice are parameters of the reference interpreter (builtins b_binop, b_neg, b_subscript,
    b_slice: C13/C14/C17 own their meaning); what is proved here is evaluation order, error
    propagation, short-circuiting and that only the chosen branch of a ternary is evaluated.
+   Function calls with keyword arguments are covered too (b_function; the world's functions must
+   not read the VM state, as for filters; `super()` is excluded by wf_expr: it is not a function).
    EXCLUDED by wf_expr (compiled by Model/Compile.v and covered by C07_compile_always_checks,
-   but compile_correct is not proved for them): function calls, array and map literals.
+   but compile_correct is not proved for them): array and map literals.
    Hypotheses on the trees (lib_wf = what the parser guarantees, Compile.wf_stmt): break/continue
    only in a loop and not across a capture, loop.* only inside a for, non-empty loop variable
    names, user variables not named __tera_context/__tera_loop_*, includes name templates listed
@@ -95,6 +97,7 @@ Theorem C03_compile_correct :
   forall wd : world,
     (forall k, w_as_key wd (VStr k false) = Some (KStr k true)) ->
     (forall n v k sc sc', w_filter wd n v k sc = w_filter wd n v k sc') ->
+    (forall n k sc sc', w_function wd n k sc = w_function wd n k sc') ->
   forall (lib : list tdef) (name : str) (t : tdef) (cx glob : ctx) (w : W),
     world_has wd lib -> lib_wf lib -> find_t lib name = Some t ->
     match render (builtins_of_world wd) None lib name cx glob with
@@ -132,6 +135,7 @@ Theorem C03_body_correct :
   forall wd : world,
     (forall k, w_as_key wd (VStr k false) = Some (KStr k true)) ->
     (forall n v k sc sc', w_filter wd n v k sc = w_filter wd n v k sc') ->
+    (forall n k sc sc', w_function wd n k sc = w_function wd n k sc') ->
   forall tpl ae depth ch inc okn,
     inc_sim W wr wapp wd ae depth inc okn ->
     forall body, list_ok W wr wapp wd tpl ae depth ch inc okn body.
@@ -159,6 +163,7 @@ Theorem C03_capture_is_exact_partial :
   forall wd : world,
     (forall k, w_as_key wd (VStr k false) = Some (KStr k true)) ->
     (forall n v k sc sc', w_filter wd n v k sc = w_filter wd n v k sc') ->
+    (forall n k sc sc', w_function wd n k sc = w_function wd n k sc') ->
   forall tpl ae depth ch inc okn,
     inc_sim W wr wapp wd ae depth inc okn ->
   forall body lex pc b stk l sv c o,
